@@ -9,6 +9,7 @@ from .. import calg
 from ..pymodel import package
 from ..ratemodel import model as ratemodel, SELF
 from ..valueflow import Flow, norm_guard, show, simp, split_guard, walk
+from ..core import UNRECOGNISED
 from .c10 import grain_methods, GRAIN_CLASSES
 
 EXPLANATION = (
@@ -176,7 +177,13 @@ def check(ctx):
     # "... or is refused with an error": what the grain model refuses is refused by the renderer too -- the emitted expression is
     # reac.rateexpr(grain) itself, nothing catches NotImplementedError and substitutes a rate (shared with C06.R1)
     from .c06 import _r1 as assignment_rule
-    ctx.absorb(assignment_rule, "R9")
+    # (how statement i is paired with reaction i is C06's subject: when that pairing is spelled in a way C06.R1 does not read, this
+    # property keeps its own half -- the rate comes out of <reaction>.rateexpr(..) and a refusal is not caught -- and says so in a note)
+    pairing = []
+    ctx.absorb(assignment_rule, "R9", only=lambda o: not (o.outcome == UNRECOGNISED and o.key in ("_assign_rates:iteration", "_assign_rates:return") and (pairing.append(o.msg) or True)))
+    if pairing:
+        ctx.note("C06.R1 does not read how _assign_rates pairs statements with reactions: " + pairing[0][:120])
+        _r9_rate_from_rateexpr(ctx, pkg)
     _r9_refusal_not_caught(ctx, pkg)
     # occurrences count: no set / dict keyed by the species stands between a reactant list and the terms built from it
     from ..multiplicity import rule as multiplicity_rule
@@ -186,6 +193,38 @@ def check(ctx):
     from .c14 import _r6 as live_views
     ctx.absorb(lambda sub: live_views(sub, package(sub.tree)), "R11", only=lambda o: "Network.grains:" in o.key and o.outcome != "MISSING")
     _r12_tunnelling(ctx, pkg)
+
+
+def _r9_rate_from_rateexpr(ctx, pkg):
+    """Fallback of R9 when the statement builder is not read by C06.R1: within `_assign_rates` and the functions of its module it
+    calls, the rate texts are produced by `<reaction>.rateexpr(..)` (a call, or operator.methodcaller("rateexpr")), the grain-aware form
+    receiving an argument -- so a refusal raised in there propagates (together with _r9_refusal_not_caught)."""
+    F = "naunet/templateloader.py"
+    root = pkg.cls("TemplateLoader").methods.get("_assign_rates")
+    if root is None:
+        ctx.missing("R9", "_assign_rates", (F, 0), "TemplateLoader._assign_rates vanished")
+        return
+    scope, todo = [], [root]
+    while todo:
+        f = todo.pop()
+        if any(f is g for g in scope):
+            continue
+        scope.append(f)
+        for c in ast.walk(f):
+            if isinstance(c, ast.Call) and isinstance(c.func, ast.Attribute) and isinstance(c.func.value, ast.Name) and c.func.value.id in ("self", "cls", "TemplateLoader"):
+                g = pkg.resolve("TemplateLoader", c.func.attr)[1]
+                if g is not None:
+                    todo.append(g)
+            elif isinstance(c, ast.Call) and isinstance(c.func, ast.Name) and (F, c.func.id) in pkg.functions:
+                todo.append(pkg.functions[(F, c.func.id)])
+    calls = [c for f in scope for c in ast.walk(f) if isinstance(c, ast.Call) and isinstance(c.func, ast.Attribute) and c.func.attr == "rateexpr"]
+    by_name = [c for f in scope for c in ast.walk(f) if isinstance(c, ast.Call) and ast.unparse(c.func).split(".")[-1] == "methodcaller" and c.args
+               and isinstance(c.args[0], ast.Constant) and c.args[0].value == "rateexpr"]
+    with_grain = [c for c in calls if c.args or c.keywords] + [c for c in by_name if len(c.args) > 1]
+    if with_grain:
+        ctx.ok("R9", "_assign_rates:rate from rateexpr", (F, with_grain[0].lineno), "the rate text of a reaction is what <reaction>.rateexpr(<its grain>) returns")
+    else:
+        ctx.unrec("R9", "_assign_rates:rate from rateexpr", (F, root.lineno), "no call <reaction>.rateexpr(<grain>) found in _assign_rates or the functions it calls")
 
 
 def _r9_refusal_not_caught(ctx, pkg):
@@ -241,6 +280,10 @@ def _r8(ctx, pkg):
     tested = any(x == INST for f in rets for gd in f.guards for x in walk(simp(gd[0]))) or any(x == INST for f in rets if f.value is not None for x in walk(simp(f.value)))
     ok = bool(on_inst) and tested and all(v == ("param", arg) for v in on_inst)
     found = "; ".join(show(v)[:50] for v in on_inst) or "no return"
+    if not ok and (not tested or not on_inst or not any(v != ("param", arg) and any(x == ("param", arg) for x in walk(v)) for v in on_inst)):
+        # no `isinstance(<argument>, Species)` decision is visible, or what is returned for an instance is not an expression of it
+        ctx.unrec("R8", "Component._create_species:instance kept", ("naunet/component.py", fn.lineno), f"cannot see what _create_species returns for a Species instance: {found}")
+        return
     ctx.check(ok, "R8", "Component._create_species:instance kept", ("naunet/component.py", fn.lineno),
               "a Species instance handed in is the instance stored" if ok else
               "a Species instance handed in is replaced by a copy / re-parse: values set on the object (explicit binding energy, photodesorption yield, custom alias) are lost and "
@@ -396,18 +439,39 @@ def _r6(ctx):
         var, it_, body = lp[1], lp[2], lp[3]
         n += 1
         k = f"{rel.rsplit('/', 1)[1]}:eb_"
-        dom_ok = it_ == ("filter", "selectattr", ("attr", ("name", "network"), "species"), (("const", "is_surface"),), ()) or it_ == ("attr", ("name", "network"), "species")
-        ctx.check(dom_ok and lp[7] is None, "R6", f"{k}:every ice species", (rel, lp[5]), "one constant per surface species of the network", expected="network.species | selectattr('is_surface')", found=J.show(it_))
+        SPECS = ("attr", ("name", "network"), "species")
+        dom_ok = it_ == ("filter", "selectattr", SPECS, (("const", "is_surface"),), ()) or it_ == SPECS
+        base_, fs_ = J.unfilter(it_)
+        dkey = f"{k}:every ice species"
+        if dom_ok and lp[7] is None:
+            ctx.ok("R6", dkey, (rel, lp[5]), "one constant per surface species of the network")
+        elif base_ == SPECS and (lp[7] is not None or any(f[0] in ("select", "reject", "selectattr", "rejectattr", "slice", "batch") for f in fs_)):
+            # understood and wrong: the species list with a further selection
+            ctx.bad("R6", dkey, (rel, lp[5]), "one constant per surface species of the network", expected="network.species | selectattr('is_surface')", found=J.show(it_) + (f" if {J.show(lp[7])}" if lp[7] is not None else ""))
+        else:
+            ctx.unrec("R6", dkey, (rel, lp[5]), f"cannot tell which species the eb_ constants are emitted for: {J.show(it_)}")
         idx = [i for i, x in enumerate(body) if x[0] == "text" and x[1].rstrip().endswith("eb_")][0]
         name = body[idx + 1] if idx + 1 < len(body) else None
-        ctx.check(name is not None and name[0] == "out" and name[1] == ("attr", var, "alias"), "R6", f"{k}:name", (rel, lp[5]), "the constant is named after the loop species' alias",
-                  expected="eb_{{ s.alias }}", found=J.show(name[1]) if name and name[0] == "out" else str(name)[:60])
+        nkey = f"{k}:name"
+        if name is not None and name[0] == "out" and name[1] == ("attr", var, "alias"):
+            ctx.ok("R6", nkey, (rel, lp[5]), "the constant is named after the loop species' alias")
+        elif name is not None and name[0] == "out" and name[1][0] == "attr" and name[1][1] == var:
+            ctx.bad("R6", nkey, (rel, lp[5]), "the constant is named after the loop species' alias", expected="eb_{{ s.alias }}", found=J.show(name[1]))
+        else:
+            ctx.unrec("R6", nkey, (rel, lp[5]), f"cannot read what follows `eb_` in the loop body: {J.show(name[1]) if name and name[0] == 'out' else str(name)[:60]}")
         if need_value:
             val = body[idx + 3] if idx + 3 < len(body) and body[idx + 2][0] == "text" and body[idx + 2][1].strip() == "=" else None
             good = val is not None and val[0] == "out" and val[1] in (("attr", var, "eb"), ("attr", var, "binding_energy"))
-            ctx.check(good, "R6", f"{k}:value", (rel, lp[5]), "the value is the same species' binding energy, printed unrounded" if good else
-                      "the constant is not the loop species' binding energy printed as-is (a filter/format rounds or another value is printed): rates reading eb_<alias> differ from those inlining the value",
-                      expected="{{ s.eb }}", found=J.show(val[1]) if val is not None and val[0] == "out" else str(val)[:80])
+            vbase = J.unfilter(val[1])[0] if val is not None and val[0] == "out" else None
+            # understood and wrong: a filter / format over the species' binding energy, or another attribute of the loop species
+            reads_eb = val is not None and val[0] == "out" and not good and any(x in (("attr", var, "eb"), ("attr", var, "binding_energy")) for x in J._subterms(val[1]))
+            other_attr = vbase is not None and not good and vbase[0] == "attr" and vbase[1] == var
+            if good or reads_eb or other_attr:
+                ctx.check(good, "R6", f"{k}:value", (rel, lp[5]), "the value is the same species' binding energy, printed unrounded" if good else
+                          "the constant is not the loop species' binding energy printed as-is (a filter/format rounds or another value is printed): rates reading eb_<alias> differ from those inlining the value",
+                          expected="{{ s.eb }}", found=J.show(val[1]) if val is not None and val[0] == "out" else str(val)[:80])
+            else:
+                ctx.unrec("R6", f"{k}:value", (rel, lp[5]), f"cannot read the value the eb_ constant is given: {J.show(val[1]) if val is not None and val[0] == 'out' else str(val)[:80]}")
     ctx.floor("R6", "eb_ loops", n, 2)
 
 
@@ -419,8 +483,12 @@ def _r1(ctx, rm, pkg):
     # rateexpr not overridden
     for G in GRAIN_CLASSES[1:]:
         ci = pkg.cls(G)
-        ctx.check("rateexpr" not in ci.methods, "R1", f"{G}:rateexpr not overridden", (ci.file, ci.node.lineno),
-                  "the dispatch and the NotImplemented -> NotImplementedError conversion are inherited from Grain.rateexpr")
+        if "rateexpr" not in ci.methods:
+            ctx.ok("R1", f"{G}:rateexpr not overridden", (ci.file, ci.node.lineno), "the dispatch and the NotImplemented -> NotImplementedError conversion are inherited from Grain.rateexpr")
+        else:
+            # an override is not wrong in itself; what it does with the dispatch / the refusal is not analysed
+            ctx.unrec("R1", f"{G}:rateexpr not overridden", (ci.file, ci.methods["rateexpr"].lineno), f"{G} overrides rateexpr: the dispatch and the NotImplemented -> NotImplementedError "
+                      "conversion of Grain.rateexpr are not known to apply")
     # the conversion itself, read off the facts of Grain.rateexpr whatever the spelling (`if rate is NotImplemented: raise`, a
     # guard clause `if rate is not NotImplemented: return rate` followed by the raise, the test in a helper): some raise of
     # NotImplementedError sits under `X is NotImplemented`, and every value the method returns is that X on a path where the test failed
@@ -444,10 +512,20 @@ def _r1(ctx, rm, pkg):
     rets = [f for f in rfl.facts if f.kind == "return" and f.value is not None]
     conv_ok = bool(raised) and bool(rets) and all(
         simp(f.value) in raised and any(t is not None and t[0] == simp(f.value) and not t[1] for gd in f.guards for sg in split_guard(gd) for t in [ni_test(sg)]) for f in rets)
-    ctx.check(conv_ok, "R1", "Grain.rateexpr:NotImplemented->error", (g.file, fn.lineno),
-              "a NotImplemented result raises NotImplementedError before anything is returned",
-              expected="if rate is NotImplemented: raise NotImplementedError(..)",
-              found="; ".join(f"return {show(simp(f.value))[:40]} under {[show(c)[:40] + '=' + str(p_) for c, p_ in f.guards][-2:]}" for f in rets)[:300])
+    # positive evidence of a swallowed refusal: something is returned on a path where the result IS NotImplemented, or the method
+    # (fully read: no private helper left as a call) never tests the result at all
+    under_ni = [f for f in rets if any(t is not None and t[1] for gd in f.guards for sg in split_guard(gd) for t in [ni_test(sg)])]
+    tests_any = any(ni_test(sg) is not None for f in rfl.facts for gd in f.guards for sg in split_guard(gd))
+    helpers_left = [x[2] for f in rfl.facts if f.value is not None for x in walk(f.value) if isinstance(x, tuple) and len(x) == 5 and x[0] == "meth" and x[1] == SELF
+                    and x[2].startswith("_") and not x[2].startswith("__")]
+    conv_msg = "a NotImplemented result raises NotImplementedError before anything is returned"
+    conv_found = "; ".join(f"return {show(simp(f.value))[:40]} under {[show(c)[:40] + '=' + str(p_) for c, p_ in f.guards][-2:]}" for f in rets)[:300]
+    if conv_ok:
+        ctx.ok("R1", "Grain.rateexpr:NotImplemented->error", (g.file, fn.lineno), conv_msg)
+    elif under_ni or (rets and not tests_any and not helpers_left):
+        ctx.bad("R1", "Grain.rateexpr:NotImplemented->error", (g.file, fn.lineno), conv_msg, expected="if rate is NotImplemented: raise NotImplementedError(..)", found=conv_found)
+    else:
+        ctx.unrec("R1", "Grain.rateexpr:NotImplemented->error", (g.file, fn.lineno), f"cannot see how Grain.rateexpr turns a NotImplemented result into an error: {conv_found}")
     n = 0
     for G in GRAIN_CLASSES:
         for tau, mname in sorted(gm.items(), key=lambda kv: str(kv[0])):
@@ -462,18 +540,30 @@ def _r1(ctx, rm, pkg):
             ok = kinds <= {"text", "notimplemented"} and kinds
             # an empty-string / None template would silently become a rate
             empty = [v for v in vs if v.kind == "text" and v.text.strip() in ("", "None")]
-            ctx.check(bool(ok) and not empty, "R1", key, (pkg.cls(dc).file, fn.lineno),
-                      f"{dc}.{mname} yields " + ("a rate template" if "text" in kinds else "NotImplemented (refused with NotImplementedError)") if ok and not empty else
-                      f"{dc}.{mname} returns {sorted(kinds)}{' / an empty template' if empty else ''}: a request the model does not implement would produce a rate",
-                      expected="template or NotImplemented")
+            if not empty and (not kinds or kinds - {"text", "notimplemented"}) and not [v for v in vs if v.kind == "other" and isinstance(v.raw, tuple) and v.raw[0] == "const"]:
+                # a value the reconstruction does not read as a template (a call left opaque, a delegate): not evidence of a rate
+                ctx.unrec("R1", key, (pkg.cls(dc).file, fn.lineno), f"{dc}.{mname} returns values that are not understood ({sorted(kinds) or 'nothing'})")
+            else:
+                ctx.check(bool(ok) and not empty, "R1", key, (pkg.cls(dc).file, fn.lineno),
+                          f"{dc}.{mname} yields " + ("a rate template" if "text" in kinds else "NotImplemented (refused with NotImplementedError)") if ok and not empty else
+                          f"{dc}.{mname} returns {sorted(kinds)}{' / an empty template' if empty else ''}: a request the model does not implement would produce a rate",
+                          expected="template or NotImplemented")
             # overrides call super() first
             if dc != "Grain":
                 first = fn.body[0]
                 if isinstance(first, ast.Expr) and isinstance(first.value, ast.Constant) and len(fn.body) > 1:
                     first = fn.body[1]
                 src = ast.unparse(first)
-                ctx.check(_is_base_call(pkg, dc, fn, mname, first), "R1", f"{dc}.{mname}:super-first", (pkg.cls(dc).file, fn.lineno),
-                          "the override first runs the base method (type and arity validation)", expected=f"super().{mname}(reac)", found=src[:60])
+                # anywhere else in the override: the base method's validation still runs, but not provably before the template is built
+                elsewhere = [x for x in ast.walk(fn) if isinstance(x, ast.Call) and isinstance(x.func, ast.Attribute) and x.func.attr == mname
+                             and ((isinstance(x.func.value, ast.Call) and isinstance(x.func.value.func, ast.Name) and x.func.value.func.id == "super")
+                                  or (isinstance(x.func.value, ast.Name) and x.func.value.id in pkg.mro(dc)[1:]))]
+                if _is_base_call(pkg, dc, fn, mname, first) or not elsewhere and not fn.decorator_list:
+                    ctx.check(_is_base_call(pkg, dc, fn, mname, first), "R1", f"{dc}.{mname}:super-first", (pkg.cls(dc).file, fn.lineno),
+                              "the override first runs the base method (type and arity validation)", expected=f"super().{mname}(reac)", found=src[:60])
+                else:
+                    ctx.unrec("R1", f"{dc}.{mname}:super-first", (pkg.cls(dc).file, fn.lineno), f"the override runs the base method, but not as its first statement ({src[:50]}): whether the "
+                              "validation precedes everything else is not decided")
     ctx.floor("R1", "(grain class, type) pairs", n, 45)
     # base validation present: some raise of the base method sits on the path where reac.reaction_type differs from the type the
     # dispatch sends here (read off the facts, private validation helpers put back)
@@ -488,7 +578,7 @@ def _r1(ctx, rm, pkg):
             fx = fn
         # the parameter may have any name: the reaction is the method's own (second) parameter
         pname = fx.args.args[1].arg if len(fx.args.args) > 1 else "reac"
-        ok = False
+        ok, other = False, []
         for f in Flow(fx, g.file, consts=rm.module_consts(g.file)).facts:
             if f.kind != "raise":
                 continue
@@ -498,9 +588,47 @@ def _r1(ctx, rm, pkg):
                     if c[0] == "cmp" and c[1] == ("Eq",) and len(c[2]) == 2 and not pol:
                         a, b = c[2]
                         for x, y in ((a, b), (b, a)):
-                            if x == ("attr", ("param", pname), "reaction_type") and rm.enum_of_ir("Grain", y) == tau:
-                                ok = True
-        ctx.check(ok, "R1", f"Grain.{mname}:type-validation", (g.file, fn.lineno), f"the base method refuses reactions whose type is not {tau}")
+                            if x == ("attr", ("param", pname), "reaction_type"):
+                                if rm.enum_of_ir("Grain", y) == tau:
+                                    ok = True
+                                elif rm.enum_of_ir("Grain", y) is not None:
+                                    other.append(rm.enum_of_ir("Grain", y))
+        # the validation as a decorator: `@only_for(ReactionType.X, ..)` with a module-level factory whose wrapper raises when
+        # `<reaction>.reaction_type != <factory parameter>` -- the test with the decorator's own argument in place of the parameter
+        opaque = []
+        for d in fn.decorator_list:
+            fac = pkg.functions.get((g.file, d.func.id)) if isinstance(d, ast.Call) and isinstance(d.func, ast.Name) else None
+            hit = False
+            if fac is not None and not d.keywords:
+                fparams = [a.arg for a in fac.args.args]
+                for w in ast.walk(fac):
+                    if isinstance(w, ast.If) and isinstance(w.test, ast.Compare) and len(w.test.ops) == 1 and isinstance(w.test.ops[0], ast.NotEq) \
+                            and any(isinstance(r, ast.Raise) for r in w.body):
+                        l, r = w.test.left, w.test.comparators[0]
+                        for x, y in ((l, r), (r, l)):
+                            if isinstance(x, ast.Attribute) and x.attr == "reaction_type" and isinstance(y, ast.Name) and y.id in fparams and fparams.index(y.id) < len(d.args):
+                                arg = d.args[fparams.index(y.id)]
+                                val = rm.enum_of_ir("Grain", ("attr", ("global", arg.value.id), arg.attr)) if isinstance(arg, ast.Attribute) and isinstance(arg.value, ast.Name) else None
+                                if val == tau:
+                                    ok = hit = True
+                                elif val is not None:
+                                    other.append(val)
+                                    hit = True
+            if not hit:
+                opaque.append(ast.unparse(d)[:40])
+        # calls the expansion could not put back may hold the validation
+        opaque += [ast.unparse(c.func) for c in ast.walk(fx) if isinstance(c, ast.Call) and isinstance(c.func, ast.Attribute) and isinstance(c.func.value, ast.Name)
+                   and c.func.value.id in ("self", "cls") and c.func.attr.startswith("_")]
+        key_ = f"Grain.{mname}:type-validation"
+        msg_ = f"the base method refuses reactions whose type is not {tau}"
+        if ok:
+            ctx.ok("R1", key_, (g.file, fn.lineno), msg_)
+        elif other:
+            ctx.bad("R1", key_, (g.file, fn.lineno), msg_, expected=f"raise unless reaction_type == {tau}", found=f"validated against type {sorted(set(other))}")
+        elif opaque:
+            ctx.unrec("R1", key_, (g.file, fn.lineno), f"no test of the reaction type is visible in the method; it may sit in {sorted(set(opaque))}, which is not understood")
+        else:
+            ctx.bad("R1", key_, (g.file, fn.lineno), msg_, expected=f"raise unless reaction_type == {tau}", found="no raise under a test of the reaction type")
 
 
 def _is_base_call(pkg, dc, fn, mname, st) -> bool:
@@ -533,7 +661,7 @@ def _r2_r5(ctx, rm, pkg):
         ctx.saw(ci.file, f"{cls}.{mname}")
         vs = [v for v in rm.variants(cls, mname) if v.kind == "text" and v.defined_in == cls]
         if not vs:
-            ctx.bad("R5", f"{cls}.{mname}", (ci.file, ci.methods[mname].lineno), "no rate template extracted from this method")
+            ctx.unrec("R5", f"{cls}.{mname}", (ci.file, ci.methods[mname].lineno), "no rate template could be extracted from this method")
             continue
         _TWO[0] = mname == _SURF[0]
         for vi, v in enumerate(vs):
@@ -576,7 +704,7 @@ def _r2_r5(ctx, rm, pkg):
                 e = strip_conds(calg.parse(txt), guards)
                 c = calg.canon(e)
             except calg.CParseError as ex:
-                ctx.bad("R5", f"{vkey}:syntax", (v.file, v.line), f"template is not a C expression: {ex}", found=txt[:160])
+                ctx.unrec("R5", f"{vkey}:syntax", (v.file, v.line), f"the template is not read as a C expression by the checker's parser ({ex}): {txt[:120]}")
                 continue
             for req in reqs:
                 nsig += 1
@@ -597,7 +725,9 @@ def _r2_r5(ctx, rm, pkg):
                     ctx.check(ok, "R5", f"{vkey}:exp({req[1]})", (v.file, v.line), f"Boltzmann factor exp({req[1]})" if ok else f"missing/incorrect Boltzmann factor, expected exp({req[1]})",
                               expected=f"exp({req[1]})", found=txt[:140])
                 elif kind == "guard":
-                    ok = any(re.search(req[1], g) for g in guards)
+                    # (`b <= a` is `a >= b`, `b < a` is `a > b`)
+                    flip = lambda g: re.sub(r"^\s*(.+?)\s*(<=|<)\s*(.+?)\s*$", lambda m: f"{m.group(3)} {'>=' if m.group(2) == '<=' else '>'} {m.group(1)}", g) if re.search(r"<=|<", g) and "&&" not in g and "||" not in g else g
+                    ok = any(re.search(req[1], g) or re.search(req[1], flip(g)) for g in guards)
                     ctx.check(ok, "R5", f"{vkey}:guard {req[1]}", (v.file, v.line), f"guarded by {req[1]}", found=str(guards))
             # which temperature the law is evaluated at is part of the law: gas temperature for what arrives from the gas
             # (accretion, recombination, electron capture), dust temperature for everything that happens on the surface
@@ -620,8 +750,11 @@ def _r2_r5(ctx, rm, pkg):
             if (cls, mname) in DEFAULT_YIELD:
                 ds = [ir for ir in v.holes.values() if (ir[1] if ir[0] == "fmt" else ir)[0] == "bool"]
                 dv = [(x[1] if x[0] == "fmt" else x)[2][1][1] for x in ds]
-                ctx.check(dv == [DEFAULT_YIELD[(cls, mname)]], "R5", f"{vkey}:default-yield", (v.file, v.line),
-                          f"species without a tabulated yield use the model's default {DEFAULT_YIELD[(cls, mname)]}", found=str(dv))
+                if dv:
+                    ctx.check(dv == [DEFAULT_YIELD[(cls, mname)]], "R5", f"{vkey}:default-yield", (v.file, v.line),
+                              f"species without a tabulated yield use the model's default {DEFAULT_YIELD[(cls, mname)]}", found=str(dv))
+                else:
+                    ctx.unrec("R5", f"{vkey}:default-yield", (v.file, v.line), "cannot see which yield a species without a tabulated one gets (no `<yield> or <default>` in the template)")
     ctx.floor("R5", "grain rate templates", n, 20)
     ctx.floor("R5", "signature requirements", nsig, 60)
     # RR07 accretion arms: electron arm has no mass dependence, the other arms have T^(1/2) A^(-1/2)
@@ -648,6 +781,39 @@ def _r2_r5(ctx, rm, pkg):
                       "accretion ~ (T/A_s)^(1/2) of the accreting species", expected="A_s^-1/2", found=f"{sorted(map(str, exps))} in {txt[:100]}")
 
 
+def _yields_as_display(fn):
+    """a generator whose body is nothing but `yield e1; yield e2; ..` produces, lazily and in this order, the elements of the display
+    (e1, e2, ..): -> a copy of the function returning that tuple (for rules that only ask in which ORDER the values are consulted)"""
+    import copy
+    body = [st for st in fn.body if not (isinstance(st, ast.Expr) and isinstance(st.value, ast.Constant))]
+    if not body or not all(isinstance(st, ast.Expr) and isinstance(st.value, ast.Yield) and st.value.value is not None for st in body):
+        return fn
+    new = copy.copy(fn)
+    new.body = [ast.copy_location(ast.Return(value=ast.Tuple(elts=[copy.deepcopy(st.value.value) for st in body], ctx=ast.Load())), body[0])]
+    return ast.fix_missing_locations(new)
+
+
+def _first_truthy(v):
+    """`next(filter(None, (a, b, c)), d)` / `next((x for x in (a, b, c) if x), d)` -- the first truthy of a, b, c, else d -- is the
+    chain `a or b or c or d` (same operands consulted in the same order, stopping at the same one)"""
+    if not isinstance(v, tuple):
+        return v
+    v = tuple(_first_truthy(x) if isinstance(x, tuple) else x for x in v)
+    if len(v) == 4 and v[0] == "call" and v[1] == ("global", "next") and len(v[2]) in (1, 2) and not v[3]:
+        src, seq = v[2][0], None
+        if src[0] == "call" and src[1] == ("global", "filter") and len(src[2]) == 2 and src[2][0] in (("const", None), ("global", "bool")):
+            seq = src[2][1]
+        elif src[0] == "comp" and src[1] in ("gen", "list") and len(src[3]) == 1 and src[3][0][0] == src[2] and src[3][0][2] == (src[2],):
+            seq = src[3][0][1]
+        if seq is not None and seq[0] == "call" and seq[1] in (("global", "iter"), ("global", "list"), ("global", "tuple")) and len(seq[2]) == 1:
+            seq = seq[2][0]
+        if seq is not None and seq[0] in ("tuple", "list") and seq[1] and not any(e[0] == "star" for e in seq[1]):
+            d = v[2][1] if len(v[2]) == 2 else None
+            parts = tuple(seq[1]) + ((d,) if d is not None and not (d[0] == "const" and not d[1]) else ())
+            return parts[0] if len(parts) == 1 else ("bool", "Or", parts)
+    return v
+
+
 def _r3(ctx, pkg):
     ci = pkg.cls("Species")
     ctx.saw(SPECIES, "Species.binding_energy")
@@ -659,7 +825,8 @@ def _r3(ctx, pkg):
             continue
         # private helper methods of Species the getter delegates the lookup to are read as part of it
         def helper(name):
-            return pkg.resolve("Species", name)[1] if name.startswith("_") and not name.startswith("__") else None
+            g = pkg.resolve("Species", name)[1] if name.startswith("_") and not name.startswith("__") else None
+            return _yields_as_display(g) if g is not None and any(isinstance(x, (ast.Yield, ast.YieldFrom)) for x in ast.walk(g)) else g
         fl = Flow(fn, SPECIES, resolver=helper)
         # no write to self.<attr> inside the getter (nor inside a private helper it calls)
         from .c09 import method_closure
@@ -694,8 +861,8 @@ def _r3(ctx, pkg):
         rets = [f for f in fl.facts if f.kind == "return" and f.value is not None]
         chains, opaque = [], []
         for f in rets:
-            v = simp(f.value)
-            tried = [c for g in f.guards for sg in split_guard((simp(g[0]), g[1])) for c in [falsy(sg)] if c is not None]
+            v = _first_truthy(simp(f.value))
+            tried = [c for g in f.guards for sg in split_guard((_first_truthy(simp(g[0])), g[1])) for c in [falsy(sg)] if c is not None]
             tried = [c for c in tried if kind_of(c)]
             parts = list(v[2]) if v[0] == "bool" and v[1] == "Or" else [v]
             opaque += [show(x)[:50] for x in parts if kind_of(x) is None]
@@ -717,7 +884,11 @@ def _r3(ctx, pkg):
             ctx.bad("R3", key_, (SPECIES, fn.lineno), f"no return consults all of {want}", expected=f"self.{attr} or {user}.get(..) or <built-in>", found=found)
         if must_raise:
             raises = [f for f in fl.facts if f.kind == "raise"]
-            ctx.check(bool(raises), "R3", f"Species.{prop}:raises", (SPECIES, fn.lineno), "a surface species without any binding energy is refused with an error")
+            left = [x[2] for f in fl.facts if f.value is not None for x in walk(simp(f.value)) if isinstance(x, tuple) and len(x) == 5 and x[0] == "meth" and x[1] == SELF]
+            if raises or not left:
+                ctx.check(bool(raises), "R3", f"Species.{prop}:raises", (SPECIES, fn.lineno), "a surface species without any binding energy is refused with an error")
+            else:
+                ctx.unrec("R3", f"Species.{prop}:raises", (SPECIES, fn.lineno), f"no raise is visible in the getter; it may sit in {sorted(set(left))}, which is not read")
 
 
 HH = "naunet/grains/hh93grain.py"
